@@ -298,6 +298,11 @@ class J1939_21:
 
         src_address = mid.source_address
 
+        if (dest_address == ParameterGroupNumber.Address.GLOBAL) and (control_byte != self.ConnectionMode.BAM):
+            # connection-mode flow control is destination specific: nobody holds the global
+            # address, an answer would carry it as its source address
+            return
+
         if control_byte == self.ConnectionMode.RTS:
             message_size = data[1] | (data[2] << 8)
             num_packages = data[3]
